@@ -181,6 +181,24 @@ fn gen_threshold(prop: &str, r: &mut Prng, seed: u64, run: u64) -> Scenario {
     if prop == "C10" {
         let n = r.urange(65_530, 66_200);
         facts = crate::facts::many_terms_facts(r, n, false);
+    } else if matches!(prop, "C01" | "C16" | "C09" | "C02") {
+        // once per batch: more than 65 535 terms over the builder, binary and text transports
+        let n = r.urange(65_537, 65_700);
+        facts = crate::facts::many_terms_facts(r, n, true);
+        let mut replicas = vec![];
+        let paths: &[PathKind] = if prop == "C09" { &[PathKind::Text, PathKind::Builder] } else { &[PathKind::Builder, PathKind::BinV3, PathKind::Text] };
+        for p in paths {
+            let mut sp = ReplicaSpec::draw(r, *p);
+            sp.defaults = true;
+            if sp.hash.0 == 3 {
+                sp.hash.0 = 0;
+            }
+            sp.dup = crate::channel::Dup::none();
+            sp.text.dup = crate::channel::Dup::none();
+            sp.via_file = false;
+            replicas.push(sp);
+        }
+        return Scenario { prop: prop.to_string(), seed, run, mode: "size-threshold".into(), facts, replicas, aux_seed: r.next_u64(), ..Default::default() };
     } else {
         // a handful of terms, N just below / above u16::MAX for one kind; the library documents an error above it
         for id in [1u32, 118, 200, 300] {
@@ -225,6 +243,9 @@ pub fn gen_replicas(prop: &str, r: &mut Prng, seed: u64, run: u64, thorough: boo
     // at fixed run indices, so that every batch contains them whatever the seed
     let period = if thorough { 60_000 } else { 6_000 };
     if (prop == "C10" || prop == "C03") && (run % period == period / 2 || forced) {
+        return gen_threshold(prop, r, seed, run);
+    }
+    if matches!(prop, "C01" | "C16" | "C09" | "C02") && (run % (period * 4) == period * 2 + 1 || forced) {
         return gen_threshold(prop, r, seed, run);
     }
     let mut cfg = GenCfg::draw(r);
@@ -356,6 +377,10 @@ pub fn gen_replicas(prop: &str, r: &mut Prng, seed: u64, run: u64, thorough: boo
         }
         replicas.push(s);
     }
+    if !huge && !replicas.iter().any(|x| x.uses_text()) && r.chance(1, 3) {
+        // no text transport in this run: names may carry surrounding blanks
+        facts.pad_some_names(r);
+    }
     let mut sub = if matches!(prop, "C01" | "C02" | "C03") && r.chance(1, 2) { draw_sub(r, &facts, 0, false) } else { None };
     if prop == "C02" && sub.is_some() && r.chance(1, 3) {
         // a request that retains modifier and phenotype terms alike, with records annotated to both kinds of term
@@ -475,7 +500,7 @@ pub fn exec_replicas(ctx: &mut Ctx, s: &Scenario) -> Outcome {
             }
             Built::Err(e) | Built::Panic(e) => {
                 out.mixin(tag(&b.describe()));
-                if prop == "C10" && s.mode == "size-threshold" {
+                if s.mode == "size-threshold" && prop != "C03" {
                     // every fact of this scenario is valid and the builder looks its terms up by id: a refusal here
                     // is a lookup that did not find an added term
                     out.violate(prop, "valid-facts-refused(size-threshold)", format!("{what}: {} — {e}", b.describe()));
